@@ -433,6 +433,223 @@ def dep_target_session(sx, brty, atr, first, steps, send_len):
 
 
 # ----------------------------------------------------------------------------
+# (3) nfc.llcp.llc - activation parameters and the run loop
+# ----------------------------------------------------------------------------
+from env import llcp as envl
+import nfc.llcp
+import nfc.llcp.llc as llcmod
+import nfc.llcp.tco as tco
+
+envl.install()
+
+GB_OK = [0x46, 0x66, 0x6D, 0x01, 0x01, 0x13, 0x02, 0x02, 0x00, 0x78,
+         0x03, 0x02, 0x00, 0x13, 0x04, 0x01, 0x32, 0x07, 0x01, 0x03]
+SYMM = b"\x00\x00"
+RAW, LDL, DLC = llcmod.RAW_ACCESS_POINT, llcmod.LOGICAL_DATA_LINK, llcmod.DATA_LINK_CONNECTION
+
+
+def new_llc(sx):
+    llc = llcmod.LogicalLinkController(sec=False)
+    # tables of the local device that are looked up with bytes of the peer
+    llc.snl = envp.SymKeyDict(sx, llc.snl)
+    llc.sap[1].sent = envp.SymKeyDict(sx, llc.sap[1].sent)
+    return llc
+
+
+def make_mac(sx, role, gb, frames):
+    cls = envp.ScriptInitiator if role == "Initiator" else envp.ScriptTarget
+    return cls(sx, sx.mkbytes(list(gb), True) if gb is not None else None, frames)
+
+
+def link_call(sx, entry, fn, *args, **kw):
+    """a call made by the thread that runs the link: returns, or the label of
+    what went wrong (blocking for ever included)"""
+    try:
+        return guarded(sx, entry, (), fn, *args, **kw)
+    except envl.WouldBlock as e:
+        sx.check(False, exc_label(e).replace("uncaught:WouldBlock", "blocks-link-thread")
+                 + "[%s]" % entry)
+    except envp.TooManyCalls:
+        sx.check(False, "endless-loop:" + entry)
+
+
+def no_wks_tlv(sx, b, start):
+    """the 16 bits of a WKS TLV are turned into text bit by bit at activation
+    (65536 paths): the pair 03 02 is kept out of the symbolic region; WKS
+    values are covered by the structured partitions"""
+    conds = [sx.neg(sx.all([b[i] == 3, b[i + 1] == 2]))
+             for i in range(start, len(b) - 1)]
+    if conds:
+        sx.assume(sx.all(conds), "no WKS TLV head (03 02) inside the fully symbolic general bytes")
+
+
+def general_bytes(sx, shape):
+    """general bytes of the peer: 'none'; 'raw:n' n symbolic bytes; 'ffm:n'
+    magic + n symbolic bytes; 'tlv:<t1>,<t2>..': magic + TLVs with type ti, a
+    length drawn around the correct one and symbolic value"""
+    kind, _, arg = shape.partition(":")
+    if kind == "none":
+        return None
+    if kind == "raw":
+        b = list(sx.bytes("gb", int(arg)))
+        no_wks_tlv(sx, b, 3)
+        return b
+    if kind == "ffm":
+        b = list(sx.bytes("gb", int(arg)))
+        no_wks_tlv(sx, b, 0)
+        return [0x46, 0x66, 0x6D] + b
+    out = [0x46, 0x66, 0x6D]
+    correct = {1: 1, 2: 2, 3: 2, 4: 1, 7: 1}
+    types = [int(x) for x in arg.split(",")]
+    intended = set()
+    for i, t in enumerate(types):
+        if t == 255:            # a lone type byte at the end
+            out.append(sx.byte("t%d.lone" % i))
+            continue
+        c = correct.get(t, 1)
+        last = i == len(types) - 1 or types[i + 1] == 255
+        if last:
+            L = sx.pick("t%d.len" % i, sorted(set([c, max(c - 1, 0), c + 1, 0, 255])))
+            n = sx.pick("t%d.have" % i, sorted(set([min(L, 3), max(min(L, 3) - 1, 0)])))
+        else:                   # TLVs before the last one are well-formed
+            L = n = c
+        if t == 3:
+            intended.add(len(out))
+            v = [sx.pick("t%d.hi" % i, [0x00, 0x13, 0xFF]),
+                 sx.pick("t%d.lo" % i, [0x00, 0x01, 0x13, 0xFF])][:n]
+        else:
+            v = list(sx.bytes("t%d.v" % i, n))
+        out += [t, L] + v
+    conds = []
+    for i in range(3, len(out) - 1):
+        if i not in intended and any(sx.is_sym(x) for x in out[i + 2:i + 4]):
+            conds.append(sx.neg(sx.all([out[i] == 3, out[i + 1] == 2])))
+    if conds:
+        sx.assume(sx.all(conds), "no WKS TLV head (03 02) in front of symbolic value bytes")
+    return out
+
+
+def llc_activate(sx, role, shape, then_run):
+    llc = new_llc(sx)
+    gb = general_bytes(sx, shape)
+    mac = make_mac(sx, role, gb, [SYMM])
+    entry = "llc.activate"
+    st, ok = link_call(sx, entry, llc.activate, mac)
+    sx.check(ok is True or ok is False, "not-bool:" + entry)
+    if not ok:
+        sx.reach("llc:not-activated")
+        return False
+    sx.reach("llc:activated")
+    guarded(sx, "llc.str", (), str, llc)
+    if then_run:
+        link_call(sx, "llc.run:after-activate", llc.run, terminate=lambda: False)
+        sx.check(llc.link.SHUTDOWN, "link-not-shut-down:llc.run:after-activate")
+        sx.reach("llc:ran-with-peer-parameters")
+    return True
+
+
+ADDR = dict(raw=2, ldl=32, listen=4, connect=33, closed=34, est=35, est_listen=36,
+            close_wait=37, disconnect=38, free=40)
+PEER = dict(est=20, est_listen=21, close_wait=22, disconnect=23)
+
+
+def sap_table(sx, llc):
+    """one socket of each kind / state, made with the socket API and PDUs
+    dispatched the way the link thread does"""
+    socks = {}
+    socks['raw'] = llc.socket(RAW)
+    llc.bind(socks['raw'], ADDR['raw'])
+    socks['ldl'] = llc.socket(LDL)
+    llc.bind(socks['ldl'], ADDR['ldl'])
+    socks['listen'] = llc.socket(DLC)
+    llc.bind(socks['listen'], b"urn:nfc:sn:snep")
+    llc.listen(socks['listen'], 1)
+    assert socks['listen'].addr == ADDR['listen']
+    socks['connect'] = llc.socket(DLC)
+    llc.bind(socks['connect'], ADDR['connect'])
+    st, _ = envl.blocks(llc.connect, socks['connect'], 20)
+    assert st == 'block' and socks['connect'].state.CONNECT
+    socks['closed'] = llc.socket(DLC)
+    llc.bind(socks['closed'], ADDR['closed'])
+    for name in ("est", "est_listen", "close_wait", "disconnect"):
+        lst = llc.socket(DLC)
+        llc.bind(lst, ADDR[name])
+        llc.listen(lst, 1)
+        llc.dispatch(pdu.Connect(ADDR[name], PEER[name], 128, 1))
+        socks[name] = llc.accept(lst)
+        assert socks[name].state.ESTABLISHED and socks[name].peer == PEER[name]
+        if name == "est_listen":
+            socks["est_listen.l"] = lst
+        else:
+            llc.close(lst)
+    llc.dispatch(pdu.Disconnect(ADDR['close_wait'], PEER['close_wait']))
+    assert socks['close_wait'].state.CLOSE_WAIT
+    st, _ = envl.blocks(llc.close, socks['disconnect'])
+    assert st == 'block' and socks['disconnect'].state.DISCONNECT
+    return socks
+
+
+def fix_dsap(sx, data, dsap):
+    if dsap is not None and len(data) >= 1:
+        sx.assume((data[0] >> 2) == dsap, "dsap fixed per partition")
+
+
+def llc_run(sx, role, where, n, ptype, drained):
+    """one frame of n symbolic bytes addressed to SAP `where` arrives in the
+    run loop of an activated link that has the SAP table above; then the peer
+    sends SYMM twice and falls silent"""
+    llc = new_llc(sx)
+    frame = sx.bytes("f", n)
+    fix_dsap(sx, frame, ADDR[where] if where in ADDR else int(where))
+    fix_ptype(sx, frame, ptype)
+    mac = make_mac(sx, role, GB_OK, [frame, SYMM, SYMM])
+    assert llc.activate(mac) is True
+    socks = sap_table(sx, llc)
+    if drained:
+        # everything the set-up queued for sending has left before
+        for i in range(12):
+            if llc.collect() is None:
+                break
+    entry = "llc.run"
+    link_call(sx, entry, llc.run, terminate=lambda: False)
+    sx.check(llc.link.SHUTDOWN, "link-not-shut-down:" + entry)
+    sx.reach("llc:run-returned")
+    return [str(s.state) for k, s in sorted(socks.items())]
+
+
+def llc_run_agf(sx, role, subs):
+    """an aggregate whose sub-PDUs (symbolic bytes, fixed destination) go to
+    the sockets of the SAP table"""
+    llc = new_llc(sx)
+    body = []
+    for i, (where, n, ptype) in enumerate(subs):
+        b = sx.bytes("s%d" % i, n)
+        fix_dsap(sx, b, ADDR[where])
+        fix_ptype(sx, b, ptype)
+        body += [n >> 8, n & 255] + list(b)
+    frame = sx.mkbytes([0x00, 0x80] + body, False)
+    mac = make_mac(sx, role, GB_OK, [frame, SYMM, SYMM])
+    assert llc.activate(mac) is True
+    socks = sap_table(sx, llc)
+    entry = "llc.run:agf"
+    link_call(sx, entry, llc.run, terminate=lambda: False)
+    sx.check(llc.link.SHUTDOWN, "link-not-shut-down:" + entry)
+    sx.reach("llc:run-returned")
+    return [str(s.state) for k, s in sorted(socks.items())]
+
+
+def llc_run_nested(sx, role, depth):
+    """the deeply nested aggregate in the run loop (decode + dispatch)"""
+    llc = new_llc(sx)
+    frame = bytes(bytearray(nested_agf(depth, [0x00, 0x00])))
+    mac = make_mac(sx, role, GB_OK, [frame, SYMM])
+    assert llc.activate(mac) is True
+    link_call(sx, "llc.run:nested-agf", llc.run, terminate=lambda: False)
+    sx.reach("llc:run-returned")
+    return len(frame)
+
+
+# ----------------------------------------------------------------------------
 def partitions(tier):
     P = []
     quick = tier == "quick"
@@ -520,6 +737,41 @@ def partitions(tier):
                 [[q], REQ2, ["timeout", "DEP:1"]]
             add("dep-tx:%s:%s" % (brty, q), "dep_target_session", brty=brty,
                 atr="fixed:0", first="symm:0", steps=steps, send_len=5)
+    # (3) llc activation
+    shapes = ["none", "raw:0", "raw:3", "raw:5", "raw:6", "raw:7"] + \
+        ["ffm:%d" % n for n in range(0, (6 if quick else 8) + 1)] + \
+        ["tlv:1", "tlv:2", "tlv:3", "tlv:4", "tlv:7", "tlv:5", "tlv:0", "tlv:1,255",
+         "tlv:1,2", "tlv:2,3", "tlv:3,4", "tlv:4,7", "tlv:1,2,3"]
+    if not quick:
+        shapes += ["raw:8", "raw:9", "tlv:1,2,3,4", "tlv:7,1,255", "tlv:2,2", "tlv:6,4", "tlv:3,3"]
+    for shape in shapes:
+        for role in ("Initiator", "Target"):
+            if role == "Target" and quick and not shape.startswith("tlv"):
+                continue
+            add("llc-act:%s:%s" % (role, shape), "llc_activate", role=role, shape=shape,
+                then_run=shape.startswith("tlv") or shape in ("ffm:3", "ffm:4"))
+    # (3) llc run loop
+    nmax = 5 if quick else 7
+    for where in sorted(ADDR) + ["0", "1"]:
+        for n in range(2, nmax + 1):
+            for t in range(16):
+                if n > 3 and where in ("free", "raw", "closed") and quick:
+                    continue
+                role = "Initiator" if (n + t) % 2 else "Target"
+                add("llc-run:%s:%d:%s" % (where, n, NAMES[t]), "llc_run", role=role,
+                    where=where, n=n, ptype=t, drained=bool(n % 2))
+    for where in ("0", "1"):
+        for n in (0, 1):
+            add("llc-run:%s:%d" % (where, n), "llc_run", role="Target", where=where, n=n,
+                ptype=None, drained=False)
+    AG = [[["est", 2, 3], ["est", 3, 12]], [["listen", 4, 4], ["listen", 2, 4]],
+          [["est_listen", 3, 12], ["est_listen", 2, 5], ["est_listen", 3, 13]],
+          [["ldl", 3, 3], ["ldl", 2, 3], ["raw", 2, 8]], [["connect", 2, 6], ["connect", 3, 7]],
+          [["est", 3, 12], ["disconnect", 3, 7], ["close_wait", 3, 12]]]
+    for i, subs in enumerate(AG):
+        add("llc-agf:%d" % i, "llc_run_agf", role="Initiator" if i % 2 else "Target", subs=subs)
+    for depth in (2, 60, 543):
+        add("llc-nested:%d" % depth, "llc_run_nested", role="Target", depth=depth)
     # (4) type 3 tag emulation
     for n in range(0, (6 if quick else 8) + 1):
         add("tt3:raw:%d" % n, "tt3_command", shape="raw", n=n)
@@ -545,6 +797,8 @@ MUST_REACH = ["pdu:decode-error", "pdu:decoded", "pdu:nested-agf-decoded",
               "dep:initiator-activate-error", "dep:initiator-not-activated",
               "dep:initiator-activated", "dep:target-not-activated",
               "dep:target-activated", "dep:target-first-request", "dep:target-exchanged",
+              "llc:not-activated", "llc:activated", "llc:ran-with-peer-parameters",
+              "llc:run-returned",
               "tt3:ignored", "tt3:answered", "tt3:dialog-ended"]
 LIMITS = {"quick": dict(witness_cap=30), "thorough": dict(witness_cap=120)}
 BOUNDS = {"quick": "", "thorough": ""}
